@@ -77,9 +77,10 @@ def c042(ctx):
     ctx.declare(R, "every store-manifest transaction records input, output and discard setsums")
     callers = {sk for sk, (f, pts) in K.callers_of(ctx, r"mani::Manifest::apply$", crates=("lsmtk",)).items()
                if not sk.startswith("lsmtk::verifier::")}
-    ctx.check(R, "lsmtk", "apply-callers", callers == set(STORE_APPLY_FNS),
-              "the store manifest is edited by exactly %s" % sorted(callers),
-              "the set of functions applying store-manifest edits changed: %s (expected %s); each must carry I/O/D" % (sorted(callers), sorted(STORE_APPLY_FNS)))
+    ctx.floor(R, "functions applying store-manifest edits", len(callers), 5)
+    missing = set(STORE_APPLY_FNS) - callers
+    ctx.check(R, "lsmtk", "apply-callers", not missing, "the store manifest is edited by %s (each checked for I/O/D below)" % sorted(callers),
+              "anchored store-manifest writers no longer call Manifest::apply: %s" % sorted(missing))
     for key in sorted(callers | set(STORE_APPLY_FNS)):
         f = ctx.fn(R, key)
         if not f:
